@@ -297,12 +297,22 @@ func runParent(p Property, scs []Sc, tier string, seed int64, n int, evidencePat
 		}
 		procs = append(procs, proc{cmd, outf})
 	}
-	engineErr := false
+	engineErr, reductionOff := false, false
 	for _, pr := range procs {
 		if err := pr.cmd.Wait(); err != nil {
+			if ee, ok := err.(*exec.ExitError); ok && ee.ExitCode() == 3 && os.Getenv("VS_NO_EAGER") == "" {
+				reductionOff = true
+				continue
+			}
 			fmt.Fprintf(os.Stderr, "ENGINE-ERROR: worker failed: %v\n", err)
 			engineErr = true
 		}
+	}
+	if reductionOff && !engineErr {
+		// the one-shot-reply reduction does not apply to this tree: explore again without the eager rules
+		fmt.Fprintf(os.Stderr, "note: restarting the exploration with the eager reductions switched off\n")
+		os.Setenv("VS_NO_EAGER", "1")
+		return runParent(p, scs, tier, seed, n, evidencePath, only)
 	}
 	if engineErr {
 		return 2
